@@ -12,6 +12,25 @@ PANICKING_CALLEES = {
     "ops::Index::index": "index", "ops::IndexMut::index_mut": "index",
     "slice::copy_from_slice": "copy_from_slice", "slice::split_at": "split_at", "str::split_at": "split_at",
     "io::BufRead::consume": "consume", "Buf::advance": "advance",
+    # bytes::Buf readers panic when fewer bytes remain than they need
+    "Buf::get_u8": "buf_get", "Buf::get_i8": "buf_get", "Buf::get_u16": "buf_get", "Buf::get_u16_le": "buf_get", "Buf::get_u16_ne": "buf_get",
+    "Buf::get_i16": "buf_get", "Buf::get_i16_le": "buf_get", "Buf::get_u32": "buf_get", "Buf::get_u32_le": "buf_get", "Buf::get_u32_ne": "buf_get",
+    "Buf::get_i32": "buf_get", "Buf::get_i32_le": "buf_get", "Buf::get_u64": "buf_get", "Buf::get_u64_le": "buf_get", "Buf::get_u64_ne": "buf_get",
+    "Buf::get_i64": "buf_get", "Buf::get_i64_le": "buf_get", "Buf::get_u128": "buf_get", "Buf::get_u128_le": "buf_get",
+    "Buf::get_uint": "buf_get", "Buf::get_uint_le": "buf_get", "Buf::get_int": "buf_get", "Buf::get_int_le": "buf_get",
+    "Buf::get_f32": "buf_get", "Buf::get_f64": "buf_get", "Buf::get_f32_le": "buf_get", "Buf::get_f64_le": "buf_get",
+    "Buf::copy_to_slice": "buf_get", "Buf::copy_to_bytes": "buf_get", "BytesMut::split_to": "buf_get", "Bytes::split_to": "buf_get",
+    "Bytes::split_off": "buf_get", "BytesMut::split_off": "buf_get", "Bytes::slice": "buf_get", "Bytes::truncate": None,
+    "slice::split_at_mut": "split_at", "slice::copy_within": "copy_from_slice", "slice::rotate_left": "split_at", "slice::rotate_right": "split_at",
+    "slice::chunks": "chunks", "slice::chunks_exact": "chunks", "slice::windows": "chunks", "slice::swap": "index",
+    "Iterator::step_by": "chunks", "str::split_at": "split_at", "String::remove": "remove", "String::insert": "vec_insert",
+    "String::insert_str": "vec_insert", "String::truncate": "drain", "String::split_off": "split_at", "Vec::split_off": "split_at",
+    "VecDeque::swap": "index", "VecDeque::remove": None, "Vec::truncate": None, "char::from_digit": "from_digit",
+    "u64::pow": "pow", "usize::pow": "pow", "u32::pow": "pow", "u64::div_ceil": "div", "usize::div_ceil": "div",
+    "u64::rem_euclid": "div", "usize::rem_euclid": "div", "u64::div_euclid": "div", "usize::div_euclid": "div",
+    "u64::next_power_of_two": "pow", "usize::next_power_of_two": "pow", "u64::abs_diff": None,
+    "Duration::from_secs_f32": "from_secs_f64", "Instant::checked_add": None, "Option::unwrap_or_default": None,
+    "u64::strict_add": "add", "u64::strict_sub": "sub",
     "Vec::drain": "drain", "Vec::remove": "remove", "Vec::swap_remove": "remove", "Vec::insert": "vec_insert",
     "String::drain": "drain",
     "ops::Add::add": "add", "ops::Sub::sub": "sub", "ops::Div::div": "div", "ops::Mul::mul": "mul",
